@@ -787,10 +787,8 @@ impl rustc_driver::Callbacks for Cb {
             if let Some(j) = cx.body_json(ldid, kind) {
                 fns.push(j);
             }
-            if kind == "static" || kind == "const" {
-                for j in cx.promoted_json(ldid) {
-                    fns.push(j);
-                }
+            for j in cx.promoted_json(ldid) {
+                fns.push(j);
             }
         }
         // dump all local ADTs even when unused in bodies
